@@ -177,7 +177,21 @@ func c07Naming(c *core.Ctx, r *core.Report) {
 	srGet := c.IfaceMethod("container", "SingletonRegistry", "GetSingleton")
 	srNames := c.IfaceMethod("container", "SingletonRegistry", "GetSingletonNames")
 	n := 0
+	namesInvokers := map[*ssa.Function]bool{}
 	for _, fn := range c.Invokers(srNames) {
+		namesInvokers[fn] = true
+	}
+	var fillers []*ssa.Function
+	for _, fn := range c.Invokers(srNames) {
+		fillers = append(fillers, fn)
+	}
+	for _, fn := range c.Invokers(srGet) {
+		// a helper the loop body was moved into belongs to the same role
+		if !namesInvokers[fn] && withinRole(c, fn, func(f *ssa.Function) bool { return namesInvokers[f] }, 3) {
+			fillers = append(fillers, fn)
+		}
+	}
+	for _, fn := range fillers {
 		for _, b := range fn.Blocks {
 			for _, in := range b.Instrs {
 				mu, ok := in.(*ssa.MapUpdate)
@@ -301,11 +315,16 @@ func c07InjectsWriters(c *core.Ctx, r *core.Report, ps []*procInfo) {
 	stores, _ := c.FieldAccesses(prop, "Injects")
 	decided := map[*ssa.Function]string{}
 	for _, p := range ps {
+		// the tables interpret the method together with the helpers it is split into: a store in one of them is decided too
 		if p.Roles["dep"] {
-			decided[p.Props] = "query table (C06.R1/C07.R5): appends registry results or a guarded by-name candidate"
+			for _, f := range p.Body {
+				decided[f] = "query table (C06.R1/C07.R5): appends registry results or a guarded by-name candidate"
+			}
 		}
 		if _, _, np := narrowingFn(c, ps); np == p {
-			decided[p.Props] = "narrowing table (C08.R2/R3): stores the narrowing result, which never contains nil, or nil"
+			for _, f := range p.Body {
+				decided[f] = "narrowing table (C08.R2/R3): stores the narrowing result, which never contains nil, or nil"
+			}
 		}
 	}
 	if inj := c.Roles().PropertyInject; inj != nil {
